@@ -4,7 +4,8 @@
 \* locked is part of the step that follows the acquisition.
 \*   EarlyUnlock -- seeded change C11: pop() releases the heap-size lock before it has locked the bottom node
 EXTENDS Naturals, Sequences, FiniteSets, TLC
-CONSTANTS Procs, M, Script, SlotOf, EarlyUnlock
+CONSTANTS Procs, M, Script, SlotOf, EarlyUnlock,
+          ParentNotEmpty    \* seeded change C11b: heapify_after_push tests "parent tag != Empty" instead of "== Available"
 NIL == 0
 TagE == 0      \* node tags: Empty, Available, or the id of the pushing thread
 TagA == 100
@@ -33,7 +34,7 @@ HP1:    while (i > 1) {                                                 \* heapi
           par := i \div 2;
 HP2:      Lock(par);
 HP3:      Lock(i);
-HP4:      if (tag[par] = TagA /\ tag[i] = self) {
+HP4:      if (((~ParentNotEmpty /\ tag[par] = TagA) \/ (ParentNotEmpty /\ tag[par] # TagE)) /\ tag[i] = self) {
             if (val[i] > val[par]) {
               tag[i] := tag[par] || tag[par] := tag[i]; val[i] := val[par] || val[par] := val[i];
               lk[i] := NIL || lk[par] := NIL; i := par;
@@ -172,7 +173,7 @@ PU4(self) == /\ pc[self] = "PU4"
 
 PU5(self) == /\ pc[self] = "PU5"
              /\ Assert(tag[i[self]] = TagE /\ val[i[self]] = 0, 
-                       "Failure of assertion at line 30, column 9.")
+                       "Failure of assertion at line 31, column 9.")
              /\ val' = [val EXCEPT ![i[self]] = v[self]]
              /\ tag' = [tag EXCEPT ![i[self]] = self]
              /\ lk' = [lk EXCEPT ![i[self]] = NIL]
@@ -208,7 +209,7 @@ HP3(self) == /\ pc[self] = "HP3"
                              tt, tv >>
 
 HP4(self) == /\ pc[self] = "HP4"
-             /\ IF tag[par[self]] = TagA /\ tag[i[self]] = self
+             /\ IF ((~ParentNotEmpty /\ tag[par[self]] = TagA) \/ (ParentNotEmpty /\ tag[par[self]] # TagE)) /\ tag[i[self]] = self
                    THEN /\ IF val[i[self]] > val[par[self]]
                               THEN /\ tag' = [tag EXCEPT ![i[self]] = tag[par[self]],
                                                          ![par[self]] = tag[i[self]]]
@@ -414,7 +415,7 @@ HQ9(self) == /\ pc[self] = "HQ9"
 
 PO9(self) == /\ pc[self] = "PO9"
              /\ Assert(pv[self] \in pushed /\ pv[self] \notin popped, 
-                       "Failure of assertion at line 79, column 9.")
+                       "Failure of assertion at line 80, column 9.")
              /\ popped' = (popped \cup {pv[self]})
              /\ pc' = [pc EXCEPT ![self] = "NX"]
              /\ UNCHANGED << tag, val, lk, glock, cnt, pushed, emptyPops, k, i, 
